@@ -83,6 +83,7 @@ static void genCase(long k, const vh::Args &a) {
     printf("first %d\n", first);
     dumpGenerated(ccs, rs, first);
     dumpGenerated(ccs, rs, 1 - first);
+    if (!malformed) dumpAlternatives(ccs, rs);
     for (auto *c : ccs) delete c;
     for (auto *q : rs) delete q;
     vh::endCase();
